@@ -24,6 +24,11 @@ Menu == {
   M("SB20", "ctor", <<>>, TRUE),    M("SB20", "ctor", <<"dek", "mac">>, FALSE),    M("SB20", "ctor", <<"dek", "mac", "nonce">>, FALSE),
   M("SB21", "ctor", <<>>, TRUE),    M("SB21", "ctor", <<"dek", "mac">>, FALSE),    M("SB21", "ctor", <<"dek", "mac", "nonce">>, FALSE),
   M("SB21", "config", <<>>, TRUE),  M("SB21", "config", <<"dek", "mac">>, FALSE),  M("SB21", "config", <<"dek", "mac", "nonce">>, FALSE),
+  \* SB2.1 file built from a COMMAND FILE with keyblob definitions and keywrap / encrypt statements ("bd": BD text, "config": the YAML form):
+  \* every keywrap statement wraps an OTFAD key blob whose key, counter and range are the user's (mandatory in a keyblob definition) and
+  \* whose filler word SPSDK chooses; the wrapped blob travels as the payload of a load command inside the encrypted section
+  M("SB21KW", "bd", <<>>, TRUE),
+  M("SB21KW", "config", <<>>, TRUE),  M("SB21KW", "config", <<"dek", "mac", "nonce">>, FALSE),
   M("MBI", "ctor", <<"key">>, TRUE),    M("MBI", "ctor", <<"key", "ctr_iv">>, FALSE),
   M("MBI", "config", <<"key">>, TRUE),  M("MBI", "config", <<"key", "ctr_iv">>, FALSE),
   M("OTFAD", "ctor", <<>>, TRUE),   M("OTFAD", "ctor", <<"key">>, FALSE),          M("OTFAD", "ctor", <<"key", "ctr">>, FALSE),
@@ -41,6 +46,7 @@ ExOf(k, h) == {ToSet(m.ex) : m \in {x \in Menu : x.kind = k /\ x.how = h}}
 \* secret-bearing fields of an artefact, in a fixed order
 FieldSeq(k) == CASE k = "SB20"  -> <<"dek", "mac", "nonce", "hpad", "kpad">>      \* DEK, MAC key, header nonce, header padding, key-blob padding
                  [] k = "SB21"  -> <<"dek", "mac", "nonce", "hpad">>
+                 [] k = "SB21KW" -> <<"dek", "mac", "nonce", "hpad", "filler1", "filler2">>   \* as SB21, plus the key-blob filler of EVERY keywrap load (the command file of this kind has two)
                  [] k = "MBI"   -> <<"key", "ctr_iv">>                            \* image encryption key (always the user's), counter IV
                  [] k = "OTFAD" -> <<"key", "ctr", "filler">>                     \* key blob: AES key, counter, filler word
                  [] k \in {"IEE", "IEECTR"} -> <<"key1", "key2">>                 \* XTS: two keys;  CTR: key and initial counter
@@ -48,12 +54,14 @@ FieldSeq(k) == CASE k = "SB20"  -> <<"dek", "mac", "nonce", "hpad", "kpad">>    
                  [] k \in {"HAB", "HABRT"} -> <<"dek", "nonce">>
                  [] k = "HEX"   -> <<"value">>                                    \* load_hex_string(None, n)
 Fields(k) == ToSet(FieldSeq(k))
-\* fields that come into being only when the artefact is exported
-Late(k) == CASE k = "SB20" -> {"hpad", "kpad"} [] k = "SB21" -> {"hpad"} [] k = "OTFAD" -> {"filler"} [] OTHER -> {}
+\* fields that come into being - or can be observed - only when the artefact is exported (the key blobs wrapped by keywrap statements sit
+\* inside the encrypted section of the file)
+Late(k) == CASE k = "SB20" -> {"hpad", "kpad"} [] k = "SB21" -> {"hpad"} [] k = "SB21KW" -> {"hpad", "filler1", "filler2"}
+            [] k = "OTFAD" -> {"filler"} [] OTHER -> {}
 \* fields narrower than 64 bits: a harness may leave them out of long histories (birthday bound), nothing else may be left out
-Narrow(k) == IF k = "OTFAD" THEN {"filler"} ELSE {}
+Narrow(k) == CASE k = "OTFAD" -> {"filler"} [] k = "SB21KW" -> {"filler1", "filler2"} [] OTHER -> {}
 \* <<key field, nonce field>> of the artefacts that run AES in counter mode (CTR, or CCM which is CTR + CBC-MAC)
-CtrOf(k) == CASE k \in {"SB20", "SB21", "HAB", "HABRT"} -> <<"dek", "nonce">>
+CtrOf(k) == CASE k \in {"SB20", "SB21", "SB21KW", "HAB", "HABRT"} -> <<"dek", "nonce">>
               [] k = "MBI" -> <<"key", "ctr_iv">>
               [] k = "OTFAD" -> <<"key", "ctr">>
               [] k = "IEECTR" -> <<"key1", "key2">>
